@@ -40,7 +40,10 @@
 	((out) == NULL || (W_OK(out, sizeof(*(out))) && (*(out) == NULL || W_OK(*(out), (need))))))
 #define DER_WR_FRAME(out, outlen, need) *(outlen), *(out), OBJ_UPTO(*(out), (need))
 #define DER_WR_ADV(out, outlen, need) (*(outlen) == OLD(*(outlen)) + (need) && \
-	((out) == NULL || (OLD(*(out)) == NULL ? *(out) == NULL : *(out) == OLD(*(out)) + (need))))
+	((out) == NULL || (OLD(*(out)) == NULL ? *(out) == NULL : (PTR_IN(OLD(*(out)), *(out), OLD(*(out)) + (need)) && *(out) == OLD(*(out)) + (need)))))
+/* variable amount written: delta = growth of *outlen, bounded by cap */
+#define DER_WR_ADV_VAR(out, outlen, cap) ((out) == NULL || (OLD(*(out)) == NULL ? *(out) == NULL : \
+	(PTR_IN(OLD(*(out)), *(out), OLD(*(out)) + (cap)) && *(out) == OLD(*(out)) + (*(outlen) - OLD(*(outlen))))))
 #define DER_WR_SAME(out, outlen) (*(outlen) == OLD(*(outlen)) && ((out) == NULL || *(out) == OLD(*(out))))
 #endif
 
@@ -166,7 +169,7 @@ ASSIGNS(*outlen; out != NULL: *out; out != NULL && *out != NULL: OBJ_UPTO(*out, 
 ENSURES(RET == 1 || RET == 0 || RET == -1)
 ENSURES((RET == 1) == (a != NULL))
 ENSURES(RET == 1 IMPLIES *outlen - OLD(*outlen) >= 3 && *outlen - OLD(*outlen) <= DER_TLV_SZ(alen + 1))
-ENSURES(RET == 1 IMPLIES (out == NULL || (OLD(*out) == NULL ? *out == NULL : *out == OLD(*out) + (*outlen - OLD(*outlen)))))
+ENSURES(RET == 1 IMPLIES DER_WR_ADV_VAR(out, outlen, DER_TLV_SZ(alen + 1)))
 ENSURES(RET != 1 IMPLIES DER_WR_SAME(out, outlen))
 ;
 
@@ -184,7 +187,7 @@ ASSIGNS(*outlen; out != NULL: *out; out != NULL && *out != NULL: OBJ_UPTO(*out, 
 ENSURES(RET == 1 || RET == 0 || RET == -1)
 ENSURES((RET == 1) == (a != -1))
 ENSURES(RET == 1 IMPLIES *outlen - OLD(*outlen) >= 3 && *outlen - OLD(*outlen) <= 6)
-ENSURES(RET == 1 IMPLIES (out == NULL || (OLD(*out) == NULL ? *out == NULL : *out == OLD(*out) + (*outlen - OLD(*outlen)))))
+ENSURES(RET == 1 IMPLIES DER_WR_ADV_VAR(out, outlen, 6))
 ENSURES(RET != 1 IMPLIES DER_WR_SAME(out, outlen))
 ;
 
@@ -241,7 +244,7 @@ ASSIGNS(*outlen; out != NULL: *out; out != NULL && *out != NULL: OBJ_UPTO(*out, 
 ENSURES(RET == 1 || RET == 0 || RET == -1)
 ENSURES((RET == 1) == (bits >= 0))
 ENSURES(RET == 1 IMPLIES *outlen - OLD(*outlen) >= 4 && *outlen - OLD(*outlen) <= 7)
-ENSURES(RET == 1 IMPLIES (out == NULL || (OLD(*out) == NULL ? *out == NULL : *out == OLD(*out) + (*outlen - OLD(*outlen)))))
+ENSURES(RET == 1 IMPLIES DER_WR_ADV_VAR(out, outlen, 7))
 ENSURES(RET != 1 IMPLIES DER_WR_SAME(out, outlen))
 ;
 
